@@ -1,7 +1,18 @@
 /-
 C04 — lifting the parts-level neighbour theorems (`Lemmas/TopoNeigh.lean`, `TopoLabel.lean`, `TopoComplete.lean`) to the
 public functions on cell NUMBERS: `Layer::neighbour`, `Layer::neighbours` (model: `Topo.neighbour`, `Topo.neighbours`),
-for every depth `d ≤ 29`, both z-order builds (any `cfg`).
+for every depth `d ≤ 29`, both z-order builds (any `cfg`, debug assertions on or off).
+
+* `numberOf d q = q.d0h·4^d + interleave q.i q.j`, `partsOf d h` (its inverse on `[0, 12·4^d)`): `decodeHash_spec`,
+  `build_spec`, `numberOf_partsOf`, `partsOf_numberOf`, `numberOf_injective`, `partsOf_valid`, `numberOf_lt`;
+* 1. `neighbour_spec`: `Layer::neighbour` never panics on a cell number of the depth and returns the number of the
+  parts-level neighbour;
+* 2. `inner_bits_correct` (`inner_bits_correct_hash`): the masked-OR bit trick of `inner_cell_neighbours` is the coordinate
+  arithmetic; `isInBaseCellBorder_iff`: the border test on masked bits is the border test on coordinates; mask facts
+  `xMask_eq`, `yMask_eq`, `d0hMask_eq`, `hash_and_xMask`, `hash_and_yMask`, `hash_and_d0hMask`;
+* 3. `neighbours_spec`: `Layer::neighbours` = `nbList` (entries in `MainWind` index order), through
+  `edgeCellNeighbours_spec` (border path) and `innerCellNeighbours_spec` (fast path).
+The property-level corollaries on numbers are in `TopoLift2.lean`.
 -/
 import HpxVerif.Lemmas.TopoComplete
 import HpxVerif.Lemmas.RingBij5
